@@ -101,6 +101,8 @@ pub struct Model<'a> {
     pub fired: Vec<(String, &'static str)>,
     /// mistakes the model recognised, by kind
     pub mistakes: Vec<&'static str>,
+    /// the run touched a conversion the model does not predict: judge totality only
+    pub unpredictable: bool,
     depth: usize,
 }
 
@@ -141,6 +143,7 @@ impl<'a> Model<'a> {
             item_calls: BTreeMap::new(),
             fired: Vec::new(),
             mistakes: Vec::new(),
+            unpredictable: false,
             depth: 0,
         }
     }
@@ -247,6 +250,10 @@ impl<'a> Model<'a> {
                         self.mistake("value_rejected");
                         Err(vec![type_err("path")])
                     }
+                    Value::Raw(_) => {
+                        self.unpredictable = true;
+                        Ok(Val::Opaque)
+                    }
                 };
                 if let Err(ls) = &mut r {
                     // from_value and from_expr both offer the value's span
@@ -334,6 +341,12 @@ impl<'a> Model<'a> {
                 Hook::Str(s) => Ok(Ok(Val::S(s.to_string()))),
                 other => m.default_hook(&other),
             }),
+            Ty::Any(tag) => {
+                self.unpredictable = true;
+                self.mistakes.push("probe:builtin_conversion_exercised");
+                let _ = tag;
+                Ok(Ok(Val::Opaque))
+            }
             Ty::Char => self.route(it, &mut |m, h| match h {
                 Hook::Char(c) => Ok(Ok(Val::C(c))),
                 Hook::Str(s) if s.chars().count() == 1 => Ok(Ok(Val::C(s.chars().next().unwrap()))),
